@@ -29,7 +29,7 @@ ASSUMPTIONS = [
     "(see C18) are not generated: no documentation defines them.",
 ]
 
-NAMES = ["add_reactions", "readd", "readd", "detached_bounds", "remove_reactions", "add_metabolites", "remove_metabolites", "add_boundary", "rxn_add_mets", "bounds",
+NAMES = ["add_reactions", "readd", "readd", "detached_bounds", "remove_reactions", "add_metabolites", "remove_metabolites", "add_boundary", "rxn_add_mets", "bounds", "bounds_seq",
          "rule", "gene_state", "knock_out_model_genes", "remove_genes", "rename_genes", "rename_rxn", "rename_met", "objective",
          "direction", "imul", "iadd", "copy", "solver", "optimize", "add_cons", "add_var", "remove_cons", "repair", "add_group",
          "remove_group", "group_members", "from_string", "inplace_meta", "tolerance", "merge"]
